@@ -12,6 +12,7 @@ import (
 	"reflect"
 	"strconv"
 	"testing"
+	"time"
 
 	ebu "github.com/jilio/ebu"
 	"github.com/jilio/ebu/state"
@@ -291,6 +292,8 @@ func TestC15(t *testing.T) {
 	crossShape(c)
 	sameName(c)
 	queuedNames(c)
+	afterUndecodable(c)
+	hookStamped(c)
 	run.Sample(map[string]any{"shape": "*state.ChangeMessage", "event_type_name": ebu.EventType(&state.ChangeMessage{}), "go_type": "*state.ChangeMessage", "apis": []string{"persist-name", "replay-eventtype-compare", "subscribe-replay-phase", "subscribe-live-phase", "upcast-as-source", "upcast-as-target", "upcast-target-into-subscription"}})
 	run.Exhaustive(true)
 	_ = json.Valid
@@ -349,6 +352,78 @@ func queuedNames(c *caseCtx) {
 	c.run.Case("persist-name|write-behind store", true)
 	if fmt.Sprint(got) != fmt.Sprint(want) {
 		c.run.Violation("typename:persist-name:write-behind-store", fmt.Sprintf("five events of four types queued in a write-behind store carry the names %v when it writes them out, EventType reports %v", got, want), nil)
+	}
+}
+
+type undecV1 struct{ ID int }
+type undecV2 struct {
+	ID  int
+	Tag string
+}
+
+// afterUndecodable: a record of the source type that does not decode (so its typed upcast fails and
+// it stays what it was) says nothing about the records of that name that follow: they are matched
+// by the typed upcaster and by the typed replay subscription of the target type.
+func afterUndecodable(c *caseCtx) {
+	ctx := context.Background()
+	store := ebu.NewMemoryStore()
+	for _, d := range []string{`{"ID":1}`, `{"ID":"not a number"}`, `{"ID":3}`, `{"ID":4}`} {
+		store.Append(ctx, &ebu.Event{Type: ebu.EventType(undecV1{}), Data: json.RawMessage(d), Timestamp: time.Unix(1, 0)})
+	}
+	for _, first := range []int{0, 1} { // a fresh bus and subscription id each time
+		bus := ebu.New(ebu.WithStore(store), ebu.WithSubscriptionStore(ebu.NewMemoryStore()), ebu.WithUpcastErrorHandler(func(string, json.RawMessage, error) {}))
+		ebu.RegisterUpcast(bus, func(a undecV1) undecV2 { return undecV2{ID: a.ID, Tag: "up"} })
+		var got []int
+		err := ebu.SubscribeWithReplay(ctx, bus, fmt.Sprintf("after-undecodable-%d", first), func(v undecV2) { got = append(got, v.ID) })
+		want := "[1 3 4]"
+		c.run.Case(fmt.Sprintf("typed-upcast-after-undecodable-record|%d", first), true)
+		if err != nil || fmt.Sprint(got) != want {
+			c.run.Violation("typename:typed-upcast-after-undecodable-record", fmt.Sprintf("log of four %q records, the second of which does not decode: SubscribeWithReplay of the upcast target received %v (err %v), the records the typed upcaster matches are %s", ebu.EventType(undecV1{}), got, err, want), nil)
+		}
+	}
+}
+
+// stamped names itself after a field that a before-publish hook fills in.
+type stamped struct {
+	N      int
+	Tenant string
+}
+
+func (s *stamped) EventTypeName() string { return "c15.stamped/" + s.Tenant }
+
+// hookStamped: the name a record is stored under is the name EventType reports for the event as it
+// was stored - also when a before-publish hook completes the event first.
+func hookStamped(c *caseCtx) {
+	for _, ctxHook := range []bool{false, true} {
+		store := ebu.NewMemoryStore()
+		var opt ebu.Option
+		if ctxHook {
+			opt = ebu.WithBeforePublishContext(func(_ context.Context, _ reflect.Type, e any) {
+				if s, ok := e.(*stamped); ok {
+					s.Tenant = "acme"
+				}
+			})
+		} else {
+			opt = ebu.WithBeforePublish(func(_ reflect.Type, e any) {
+				if s, ok := e.(*stamped); ok {
+					s.Tenant = "acme"
+				}
+			})
+		}
+		bus := ebu.New(ebu.WithStore(store), opt)
+		ev := &stamped{N: 7}
+		ebu.Publish(bus, ev)
+		evs, _, err := store.Read(context.Background(), ebu.OffsetOldest, 0)
+		c.run.Case(fmt.Sprintf("persist-name|event completed by a before-publish hook|ctx%v", ctxHook), true)
+		if err != nil || len(evs) != 1 {
+			c.run.Violation("typename:persist-name:hook-completed-event", fmt.Sprintf("one publish left %d records (err %v)", len(evs), err), nil)
+			continue
+		}
+		var back stamped
+		json.Unmarshal(evs[0].Data, &back)
+		if evs[0].Type != ebu.EventType(&back) {
+			c.run.Violation("typename:persist-name:hook-completed-event", fmt.Sprintf("an event completed by a before-publish hook was stored as %s under the name %q; EventType reports %q for that event", evs[0].Data, evs[0].Type, ebu.EventType(&back)), nil)
+		}
 	}
 }
 
